@@ -172,3 +172,35 @@ Theorem C02_example :
 Proof. exact apply_removes_only_own_example. Qed.
 Print Assumptions C02_example.
 
+(* ---- along every history: the side conditions are an invariant of the reachable states
+   (Proofs/History.v: [state_ok], [op_ok], [run]; one version, identity converter, no ignore
+   configuration; histories of apply / forced apply / update by any number of managers) ---- *)
+From SMD Require Import Spec.RefDiff Proofs.RefDiffBoth Proofs.RefDiffLaws Proofs.RefDiffPresent Proofs.ApplyInv
+  Proofs.RefDiffChar Proofs.ReconcileCurrent Proofs.KeySync Proofs.History.
+Theorem C02_along_every_history :
+  forall (c : config) (R : typeref -> Prop) (ver : string) (ops : list hop) 
+           (mgr : string) (cfg : value) (force : bool) (o : option tv) 
+           (mf' : managed) (p : path),
+         setting_ok c R ver ->
+         Forall (op_ok c ver) ops ->
+         op_ok c ver (HApply mgr cfg force) ->
+         apply_op c (ver, fst (run c ver ops)) (ver, cfg) ver (snd (run c ver ops)) mgr force =
+         UOk (o, mf') ->
+         wf_path p = true ->
+         p <> [] ->
+         present (schema_of c ver) (tr_of c ver) (fst (run c ver ops)) p = true ->
+         present (schema_of c ver) (tr_of c ver)
+           match o with
+           | Some t => snd t
+           | None => fst (run c ver ops)
+           end p = false ->
+         (forall q : path,
+          In q (map fst (nodes (schema_of c ver) (tr_of c ver) cfg)) -> is_prefix q p = false) ->
+         MergeKeeps.same_root_kind (schema_of c ver) (tr_of c ver) (fst (run c ver ops)) cfg ->
+         exists (last : mrec) (q : path),
+           mf_get mgr (snd (run c ver ops)) = Some last /\
+           is_prefix q p = true /\
+           ps_has q (ps_en (schema_of c ver) (tr_of c ver) (mr_set last)) = true.
+Proof. exact apply_removes_only_own_along_histories. Qed.
+Print Assumptions C02_along_every_history.
+
